@@ -1,6 +1,6 @@
 #!/usr/bin/env python3
 """Re-run every kept seeded defect against the current checks.
-usage: tools/seed_regress.py [--tier quick] [NAME...]
+usage: tools/seed_regress.py [--seed N] [NAME...]   (REGRESS.json / REGRESS.seedN.json only for full runs)
 
 Each patch is applied to a scratch git worktree of /repo's HEAD under /tmp (removed
 afterwards) and the check is pointed at it (VERIF_REPO), with its evidence going to a
@@ -21,7 +21,13 @@ def sh(cmd, **kw):
 
 
 def main():
-    names = [a for a in sys.argv[1:] if not a.startswith("--")]
+    args = sys.argv[1:]
+    base_seed = "0"
+    if "--seed" in args:
+        i = args.index("--seed")
+        base_seed = args[i + 1]
+        del args[i:i + 2]
+    names = [a for a in args if not a.startswith("--")]
     tier = "quick"
     root = os.path.join(VERIF, "seeded")
     if sh("git -C /repo status --porcelain").stdout.strip():
@@ -45,7 +51,8 @@ def main():
             continue
         try:
             t0 = time.time()
-            r = sh(f"cd {VERIF} && VERIF_REPO={wt} VERIF_EVIDENCE_DIR=/tmp/seedreg_ev "
+            r = sh(f"cd {VERIF} && VERIF_SEED={base_seed} VERIF_REPO={wt} "
+                   f"VERIF_EVIDENCE_DIR=/tmp/seedreg_ev "
                    f"./check {prop} --tier {tier}", timeout=3600)
             rows.append((name, prop, {0: "MISSED", 1: "caught", 2: "HARNESS-ERROR"}.get(
                 r.returncode, str(r.returncode)), round(time.time() - t0, 1)))
@@ -55,8 +62,10 @@ def main():
     sh(f"git -C /repo worktree remove --force {wt}; rm -rf {wt} /tmp/seedreg_ev")
     missed = [r for r in rows if r[2] != "caught"]
     print(f"{len(rows) - len(missed)}/{len(rows)} caught; not caught: {[r[0] for r in missed]}")
-    with open(os.path.join(root, "REGRESS.json"), "w") as f:
-        json.dump({"tier": tier, "rows": rows}, f, indent=1)
+    if not names:
+        out = "REGRESS.json" if base_seed == "0" else f"REGRESS.seed{base_seed}.json"
+        with open(os.path.join(root, out), "w") as f:
+            json.dump({"tier": tier, "base_seed": int(base_seed), "rows": rows}, f, indent=1)
     return 0 if not missed else 1
 
 
